@@ -56,7 +56,9 @@ theorem parseHashes_encode (hs : List Hash) (rest : Bytes) (hl : hs.length < 2 ^
 def BloomWF (f : Bloom.Filter) : Prop :=
   (f.numEntries = 0 → f = Bloom.default) ∧
   (f.numEntries ≠ 0 → f.numEntries < 2 ^ 32 ∧ f.bitsPerEntry < 2 ^ 32 ∧ f.numProbes < 2 ^ 32 ∧
-      f.bits.length = Bloom.bitsCapacity f.numEntries f.bitsPerEntry)
+      f.bits.length = Bloom.bitsCapacity f.numEntries f.bitsPerEntry ∧
+      -- since fix D2b the parser refuses more probes than bits
+      (f.bits = [] ∨ f.numProbes ≤ 8 * f.bits.length))
 
 theorem bloomTakeN_append (a rest : Bytes) : Bloom.takeN a.length (a ++ rest) = .ok (a, rest) := by
   unfold Bloom.takeN
@@ -68,7 +70,7 @@ theorem bloom_parse_toBytes (f : Bloom.Filter) (h : BloomWF f) :
   · have := h.1 h0
     rw [this]
     rfl
-  · obtain ⟨hn, hb, hp, hbits⟩ := h.2 h0
+  · obtain ⟨hn, hb, hp, hbits, hcap⟩ := h.2 h0
     unfold Bloom.toBytes Bloom.parse
     simp only [h0, ne_eq, not_false_eq_true, if_true]
     have hne : (ulebEncode f.numEntries ++ ulebEncode f.bitsPerEntry ++ ulebEncode f.numProbes
@@ -90,6 +92,12 @@ theorem bloom_parse_toBytes (f : Bloom.Filter) (h : BloomWF f) :
     have := bloomTakeN_append f.bits []
     simp only [List.append_nil] at this
     rw [this]
+    have hc : (!f.bits.isEmpty && decide (f.numProbes > 8 * f.bits.length)) = false := by
+      rcases hcap with he | hle
+      · simp [he]
+      · have : ¬ (f.numProbes > 8 * f.bits.length) := by omega
+        simp [this]
+    simp only [hc, Bool.false_eq_true, if_false]
 
 theorem bloom_toBytes_default : Bloom.toBytes Bloom.default = [] := rfl
 
